@@ -14,7 +14,7 @@ RSABITS = [768, 770, 776, 1010, 1017, 1018, 1024]
 BN_FAULTS = ['flip', 'flip', 'v_zero', 'v_ord', 'v_addord', 'v_negmod', 'v_inc', 'v_neg', 'v_one', 'prefix0', 'v_rand', 'v_big']
 PT_FAULTS = ['flip', 'flip', 'v_inf', 'v_gen', 'v_neg', 'v_dbl', 'v_rand', 'v_offcurve', 'tag', 'trunc1', 'set']
 G2_FAULTS = PT_FAULTS + ['v_nosub', 'v_nosub']
-GT_FAULTS = ['flip', 'v_one', 'v_gen', 'v_rand', 'v_inv', 'v_sqr', 'trunc1', 'set']
+GT_FAULTS = ['flip', 'v_one', 'v_gen', 'v_rand', 'v_inv', 'v_sqr', 'v_negfp', 'v_negfp', 'trunc1', 'set']
 BYTES_FAULTS = ['flip', 'flip', 'flip', 'trunc1', 'trunc', 'extend', 'set', 'empty', 'zero', 'extlong']
 FAULTS_BY_TYPE = {'bn': BN_FAULTS, 'ec': PT_FAULTS, 'g1': PT_FAULTS, 'g2': G2_FAULTS, 'gt': GT_FAULTS, 'bytes': BYTES_FAULTS}
 
@@ -256,6 +256,9 @@ class V:
         # zero-prefixed integers keep their value: they do not distinguish findings
         fs = [f for f in fs if not (f.endswith(':prefix0') and self.s.m.get(f.split(':')[0], {}).get('type') == 'bn')] or fs
         fl = '+'.join(fs) or 'none'
+        if self.s.scheme == 'etrs':
+            # faults that left the value of their field unchanged (an empty message truncated) do not tell findings apart
+            fs = [f for f in fs if f.split(':')[0] not in self.s.m or self.s.changed(f.split(':')[0])] or fs
         if self.s.scheme == 'etrs' and fs and all(f.split(':')[0].rstrip('0123456789') in ('td', 'y', 'ry', 'pp') for f in fs):
             fl = 'interpolation-inputs'  # one finding: the interpolation points and pp only enter an inequality
         elif fs and all(f.endswith(':v_addord') for f in fs):
@@ -579,7 +582,7 @@ SCHEMES.update({
     'ecmqv': Spec('C06', 5, dict(qa1='ec', qa2='ec', qb1='ec', qb2='ec'), o_ecmqv,
                   opts=lambda rng: dict(klen=rng.choice([16, 32, 48]))),
     'ecies': Spec('C06', 5, dict(pk='ec', R='ec', ct='bytes'), o_ecies, weight=12),
-    'phpe': Spec('C06', 6, dict(), o_phpe, ph=True, opts=lambda rng: dict(k=rng.randint(1, 4), cls=rng.choice([0, 0, 1, 2])),
+    'phpe': Spec('C06', 6, dict(), o_phpe, ph=True, opts=lambda rng: dict(k=rng.randint(1, 4), cls=rng.choice([0, 0, 1, 2]), dup=rng.below(2)),
                  extra_faults=[('c0', 'drop'), ('c1', 'dup'), ('c0', 'dup'), ('c2', 'drop'), ('c1', 'drop')]),
     'sss': Spec('C06', 2, dict(sh0='bn', sh1='bn', sh2='bn', sh3='bn'), o_sss,
                 opts=lambda rng: (lambda k: dict(k=k, n=rng.randint(k, 8), ord=rng.below(50), cls=rng.choice([0, 0, 0, 1, 2])))(rng.randint(2, 6)),
